@@ -75,7 +75,7 @@ impl Scenario for C16 {
       }
     };
     let acts = gen_script(rng, n_hot, true, &ScriptCfg { len: (4, 30), cut: (0, 1), post_terminal: true });
-    serde_json::to_value(PCase { threads_flavour: rng.chance(1, 2), fifo: true, n_hot, root, acts, sub_at: 0, closure_subscriber: false, sub_style: 0, finish_after: 0, panic_at: 0 }).unwrap()
+    serde_json::to_value(PCase { threads_flavour: rng.chance(1, 2), fifo: true, n_hot, root, acts, sub_at: 0, closure_subscriber: false, sub_style: 0, finish_after: 0, panic_at: 0, guard_unwinds: false }).unwrap()
   }
   fn run(&self, case: &Value) -> Result<Outcome, String> {
     let case: PCase = serde_json::from_value(case.clone()).map_err(|e| e.to_string())?;
